@@ -131,6 +131,8 @@ var controls = []control{
 	{"eta-partial-instantiation", []string{"C07", "C13"}, false, "rewriter/optimize.go", "\t\t\treturn sig, sig.TypeParams().Len() == typeArgs", "\t\t\treturn sig, typeArgs > 0 || sig.TypeParams().Len() == 0", "OPT.ETA"},
 	{"labelled-range-gets-an-iterator-inserted", []string{"C11", "C13"}, false, "rewriter/range.go", "\t\t\tif c.Index() < 0 {", "\t\t\tif c.Index() < -1 {", "RW.RANGEDISPATCH"},
 	{"iterator-type-recognised-by-name", []string{"C13", "C06"}, false, "rewriter/rewrite.go", "\treturn identicalWithoutTypeParam(r.iterType.Type(), ty)", "\tnamed, ok := ty.(*types.Named)\n\treturn ok && named.Obj().Id() == r.iterType.Id()", "RW.ITERPRED"},
+	{"file-chosen-after-the-passes", []string{"C13", "C16"}, false, "rewriter/optimize.go", "\t\tif !usesSeq[f.Filename] {", "\t\tif !imports.Uses(f, seqPkg.Types) {", "OPT.ORDER"},
+	{"yield-used-as-a-value-accepted", []string{"C12"}, false, "rewriter/rewrite.go", "\t\t\t\tvalueUses = append(valueUses, n)", "\t\t\t\t_ = n", "RW.ORACLE"},
 	{"trivial-switch-tagged-delay", []string{"C11"}, false, "rewriter/yield_rewrite.go", "\t\tchildren = r.combineIfNecessary(children) // for init containing yield\n\t\tchildren.push(switchStmt, kindTrival)", "\t\tchildren = r.combineIfNecessary(children) // for init containing yield\n\t\tchildren.push(switchStmt, kindDelay)", "RW.BLOCKSTATE"},
 	{"incdec-unknown-to-break-scan", []string{"C11"}, false, "rewriter/return.go", "*ast.IncDecStmt, *ast.AssignStmt, *ast.GoStmt, *ast.DeferStmt,\n\t\t*ast.RangeStmt /*range empty*/ :\n\t\t// no chance", "*ast.AssignStmt, *ast.GoStmt, *ast.DeferStmt,\n\t\t*ast.RangeStmt /*range empty*/ :\n\t\t// no chance", "RW.EXH"},
 	{"switch-break-rewrite-enters-loops", []string{"C01"}, false, "rewriter/yield_rewrite.go", "\t\tcase *ast.ForStmt, *ast.RangeStmt, *ast.SwitchStmt, *ast.TypeSwitchStmt,\n\t\t\t*ast.SelectStmt, *ast.FuncLit:\n\t\t\treturn false // a break in there refers to that stmt", "\t\tcase *ast.SwitchStmt, *ast.TypeSwitchStmt,\n\t\t\t*ast.SelectStmt, *ast.FuncLit:\n\t\t\treturn false // a break in there refers to that stmt", "RW.SCOPEAGREE"},
